@@ -14,8 +14,9 @@ from pyvc.pybuiltins import STable
 from pyvc.verify import Contract
 
 ASSUMPTIONS = ["the class attribute n_characters_per_line is a positive integer (80 in the repository; proved for every W >= 1)"]
-NOT_PROVED = ["text placement into the line table (EncodedRaggedArray item assignment), join_columns / delimited serialisation, "
-              "header-once logic across write calls, gzip, append mode, float formatting: bounded (rtc/enum_c03.py)",
+NOT_PROVED = ["text placement into the line table of the WRAPPED FASTA writer (EncodedRaggedArray item assignment after the proved prefix), "
+              "join_columns / delimited serialisation (dump_csv), FastQBuffer.join_fields' insertion of the '+' line and the from_data plumbing around "
+              "join_fields, gzip, append mode, float formatting: bounded (rtc/enum_c03.py)",
               "read-back equality: bounded"]
 
 
@@ -230,3 +231,101 @@ vcf_field_other = Contract("C03.VCFBuffer.process_field_for_write[other field]",
                            callees={"bionumpy.io.delimited_buffers.DelimitedBuffer.process_field_for_write": lambda ip, args, kwargs, lineno: args[-1]},
                            canaries=[("every field shifted", "if field_name == 'position':", "if True:")])
 CONTRACTS += [vcf_from_data, vcf_field_pos, vcf_field_other]
+
+
+# --- FASTA / FASTQ record layout: OneLineBuffer.join_fields for the real subclasses (2 and 4 lines per entry) ---------------------------------------
+# For ANY number of entries n >= 1 and ANY field texts: the returned flat buffer is, entry after entry, line after line,
+#     [marker (line 0 only)] field text  '\n'
+# with line r of the buffer starting at C(r), C = prefix sums of the line lengths len(field) + 1 (+1 for the marker line).  The ragged line view
+# `lines` shares the flat buffer: the stores through it are written through (heap-backed ragged array, exact ragged stores).
+from pyvc.pybuiltins import SRaggedObj       # noqa: E402
+
+
+def _OLB(name):
+    import bionumpy.io.one_line_buffer as m1
+    import bionumpy.io.fastq_buffer as m2
+    return getattr(m1, name, None) or getattr(m2, name)
+
+
+def _mk_jf(name, base_join=False):
+    cls = _OLB(name)
+    F = cls.n_lines_per_entry
+
+    def setup(ctx):
+        st = St()
+        ctx.ragged_heap = True
+        st.n = z3.Int("n_entries")
+        st.Ls = [z3.Function("len_field%d" % f, z3.IntSort(), z3.IntSort()) for f in range(F)]
+        st.chs = [z3.Function("char_field%d" % f, z3.IntSort(), z3.IntSort(), z3.IntSort()) for f in range(F)]
+        st.fields = []
+        for f in range(F):
+            fl = (lambda i, f=f: st.Ls[f](I(i)))
+            C = M.exclusive_prefix(fl, st.n)
+            r = SRaggedObj(None, st.n, lambda i, C=C: C(I(i)), fl, "BaseEncoding", C(st.n), contiguous=True, C=C)
+            r.at = (lambda i, k, f=f: st.chs[f](I(i), I(k)))
+            st.fields.append(r)
+        st.args = [cls, list(st.fields)]
+        return st
+
+    def req(ctx, st):
+        out = [st.n >= 1]
+        for f in range(F):
+            out.append(Forall(lambda i, f=f: Implies(in_range(i, st.n), st.Ls[f](i) >= 0), triggers=[st.Ls[f]], name="field %d: row lengths >= 0" % f))
+        return out
+
+    offs = cls._line_offsets
+
+    def ghost(ip, env, st):
+        """lemma by induction over the entries: the prefix sum of the raveled line lengths at row F*e is the prefix sum of the entry lengths at e"""
+        el, ll = env.vars["entry_lengths"], env.vars["line_lengths"]
+        fe = el.snapshot()
+        CE = M.exclusive_prefix(fe, el.length, el)
+        flat = ip.call_method(ll, "ravel", [], {}, None)
+        ff = flat.snapshot()
+        CL = M.exclusive_prefix(ff, flat.length, flat)
+        st.CL, st.CE, st.ff = CL, CE, ff
+        c = ip.ctx
+        # unfold the recurrence of CL over one entry (F steps): hint terms are supplied through `hints`
+        c.induct("C03.OneLineBuffer.join_fields[%s]:lemma.line.offsets.of.entry.e" % name, lambda e: CL(F * I(e)) == CE(I(e)), CE, lo=0, hi=st.n)
+
+    def ens(ctx, st, ret):
+        loc = st.ip.last_locals
+        lines = loc["lines"]
+        C = lines.C
+        st.C = C
+        goals = [("n.lines", I(lines.n) == F * st.n)]
+        for f in range(F):
+            goals.append(("line.%d.of.every.entry.has.length.len(field)+1%s" % (f, "+marker" if offs[f] else ""),
+                          Forall(lambda e, f=f: Implies(in_range(e, st.n), I(lines.lens(F * I(e) + f)) == st.Ls[f](e) + 1 + offs[f]))))
+            goals.append(("line.%d: field text" % f,
+                          Forall(lambda e, k, f=f: Implies(And(in_range(e, st.n), in_range(k, st.Ls[f](e))),
+                                                          I(ret.at(C(F * I(e) + f) + offs[f] + I(k))) == st.chs[f](e, k)), nvars=2)))
+            goals.append(("line.%d: newline at its end" % f,
+                          Forall(lambda e, f=f: Implies(in_range(e, st.n), I(ret.at(C(F * I(e) + f) + offs[f] + st.Ls[f](e))) == 10))))
+        goals.append(("marker.at.the.start.of.every.entry", Forall(lambda e: Implies(in_range(e, st.n), I(ret.at(C(F * I(e)))) == ord(cls.HEADER)))))
+        goals.append(("buffer.size.is.the.sum.of.the.line.lengths", I(ret.length) == C(F * st.n)))
+        return goals
+
+    def hints(ctx, st, ks):
+        out = []
+        C = getattr(st, "C", None)
+        if C is None:
+            C = getattr(st, "CL", None)
+        if C is None:
+            return out
+        for k in ks[:1]:
+            for f in range(F + 1):
+                out.append(C(F * I(k) + f))
+            out += [F * I(k) + f for f in range(F + 1)]
+            if hasattr(st, "CE"):
+                out += [st.CE(k), st.CE(I(k) + 1)]
+        return out
+    return Contract("C03.OneLineBuffer.join_fields[%s%s]" % (name, ": the generic layout with 4 lines per entry (the '+' line is one of the fields)" if base_join else ""), target=lambda: (_OLB("OneLineBuffer") if base_join else cls).join_fields.__func__, setup=setup, requires=req, ensures=ens,
+                    hints=hints, ghost=[("buf = EncodedArray(np.empty(buffer_size", ghost)], timeout_ms=60000, rounds=2,
+                    decorators={"@classmethod": "receiver is the real subclass"},
+                    canaries=[("marker overwrites the first character", "line_lengths[:, i] += cls._line_offsets[i]", "line_lengths[:, i] += 0"),
+                              ("newline one position early", 'lines[:, -1] = "\\n"', 'lines[:, -2] = "\\n"'),
+                              ("fields written to the wrong line", "lines[i::step, cls._line_offsets[i]:-1] = field", "lines[(i+1)%step::step, cls._line_offsets[i]:-1] = field")])
+
+
+CONTRACTS += [_mk_jf("TwoLineFastaBuffer"), _mk_jf("FastQBuffer", base_join=True)]
